@@ -433,15 +433,19 @@ static void convert_pp_number(Token *tok) {
   char *end;
   long double val = strtold(tok->loc, &end);
 
+  // A constant is converted to its own type in one step; going through
+  // long double first would round it twice.
   Type *ty;
   if (*end == 'f' || *end == 'F') {
     ty = ty_float;
+    val = strtof(tok->loc, NULL);
     end++;
   } else if (*end == 'l' || *end == 'L') {
     ty = ty_ldouble;
     end++;
   } else {
     ty = ty_double;
+    val = strtod(tok->loc, NULL);
   }
 
   if (tok->loc + tok->len != end)
